@@ -36,6 +36,7 @@ RULE = ("cases = (stage outcomes: syntax error | validation error | ambiguous/un
         "(all outcome kinds x configurations x small trees x ALL schedules). distinct non-trivial = distinct canonical case "
         "with at least one hook event beyond query start/end")
 ASSUMPTIONS = [
+    "a request that never finishes is reported only after CONFIRMATION: hang = no growth of the event log and nothing completable during N scheduling steps of the single-threaded harness (no wall-clock bound), re-run alone with 20x the bound; wall-clock bounds (300 s) only produce infrastructure notes; ApolloTracer durations are checked for presence and type only (wall-clock datetimes may step)",
     "the resolver bodies of the library's own meta-field resolvers (__typename, __schema, __type and the introspection types' lambdas) "
     "cannot be recorded: for those fields the model's call/ret events are projected away before traces are compared, and the "
     "middleware oracle is keyed on the field start hook; hooks and middleware entries/exits of meta fields ARE compared",
@@ -57,7 +58,14 @@ TRUSTED = [
 
 CONFIGS = ["blocking", "exec-blocking", "threadpool", "asyncio"]
 OUTCOMES = ["exec", "syntax", "validation", "opsel-ambiguous", "opsel-unknown", "vars", "subscription-op"]
-HARD_TIMEOUT = 10.0
+# Hang detection is PROGRESS based and independent of wall-clock time / CPU load: every configuration runs on ONE thread
+# (manual executor, private asyncio loop), so a hang = STALL_ITERS consecutive scheduling steps in which the event log did not
+# grow and nothing became completable. A first-pass hang verdict is only a suspicion: the case is re-run alone with bounds
+# x CONFIRM_SCALE and reported only if it stalls again (else stat "slow-case-not-a-hang"). INFRA_SECONDS only keeps the check from
+# blocking forever: exceeding it is an infrastructure note, never a failure.
+STALL_ITERS = 2000
+CONFIRM_SCALE = 20
+INFRA_SECONDS = 300.0
 KINDS = ["query+", "query-", "parsing+", "parsing-", "validation+", "validation-", "execution+", "execution-", "field+", "field-"]
 REF = 99          # hidden full recorder stacked outermost when a case has partial members (reference for what a member must see)
 PARTIAL_PRESETS = {
@@ -586,6 +594,10 @@ class Hang(Exception):
     pass
 
 
+class InfraBound(Exception):
+    """a bound that exists only so that the check cannot block forever"""
+
+
 def make_instr(instr, log, tracers, partial=None):
     import types
     from py_gql.execution import Instrumentation, MultiInstrumentation
@@ -654,8 +666,11 @@ def make_middlewares(n, log):
     return [mk(i) for i in range(n)]
 
 
-def run_real(case):
+def run_real(case, scale=1):
     """-> (log, result or None, error string or None, tracer payload or None)"""
+    import time as _time
+    t_start = _time.monotonic()
+    stall = STALL_ITERS * scale
     from py_gql import process_graphql_query
     from py_gql.execution import BlockingExecutor, Executor
     from py_gql.execution.runtime import AsyncIORuntime, BlockingRuntime, ThreadPoolRuntime
@@ -693,12 +708,15 @@ def run_real(case):
             steps = 0
             while man.queue:
                 steps += 1
-                if steps > 10000:
+                # every step completes one task; the number of tasks is bounded by the number of fields of the case
+                if steps > stall + 50 * (count_nodes(case["fields"]) + 60):
                     raise Hang("manual executor does not drain")
+                if _time.monotonic() - t_start > INFRA_SECONDS:
+                    raise InfraBound("%.0f s" % INFRA_SECONDS)
                 i = (sched.pop(0) if sched else 0) % len(man.queue)
                 man.run(i)
             if not fut.done():
-                raise Hang("result future never completed")
+                raise Hang("result future never completed")     # nothing left to run and nothing running: not time dependent
             result = fut.result(timeout=0)
         else:
             loop = asyncio.new_event_loop()
@@ -708,31 +726,33 @@ def run_real(case):
 
                 async def main():
                     task = asyncio.ensure_future(process_graphql_query(schema, doc, runtime=rt, **kw))
-                    spins = 0
                     while not task.done():
-                        spins += 1
-                        if spins > 20000:
-                            task.cancel()
-                            raise Hang("asyncio request does not finish")
                         # settle: let every runnable coroutine reach its suspension point
                         last = -1
                         stable = 0
                         idle = 0
+                        seen = len(log)
                         while not task.done() and (stable < 4 or not rc.pending):
                             await asyncio.sleep(0)
                             stable = stable + 1 if len(rc.pending) == last else 0
                             last = len(rc.pending)
-                            idle += 1
-                            if idle > 400:
+                            if len(log) != seen:
+                                seen, idle = len(log), 0        # the event log grew: progress
+                            else:
+                                idle += 1
+                            if idle > stall:
                                 task.cancel()
-                                raise Hang("asyncio request suspended with nothing to complete")
+                                raise Hang("asyncio request suspended with nothing to complete (%d idle loop iterations)" % stall)
+                            if _time.monotonic() - t_start > INFRA_SECONDS:
+                                task.cancel()
+                                raise InfraBound("%.0f s" % INFRA_SECONDS)
                         if task.done():
                             break
                         i = (sched.pop(0) if sched else 0) % len(rc.pending)
                         p, f = rc.pending.pop(i)
                         f.set_result(None)
                     return task.result()
-                result = loop.run_until_complete(asyncio.wait_for(main(), HARD_TIMEOUT))
+                result = loop.run_until_complete(main())
             finally:
                 try:
                     loop.run_until_complete(loop.shutdown_asyncgens())
@@ -740,8 +760,8 @@ def run_real(case):
                     loop.close()
     except Hang as e:
         return log, None, "hang:%s" % e, None
-    except asyncio.TimeoutError:
-        return log, None, "hang:timeout", None
+    except InfraBound as e:
+        return log, None, "infra:%s" % e, None
     except Exception as e:  # noqa
         return log, None, "internal:%s" % type(e).__name__, None
     payload = None
@@ -973,7 +993,7 @@ def tracer_oracle(case, log, payload):
         sec = payload.get(key)
         if started != (sec is not None):
             bad.append(("tracer-section:%s:%s" % (key, tag), "tracing %s section presence disagrees with the hooks" % key))
-        elif sec is not None and (not isinstance(sec.get("duration"), int) or sec["duration"] < 0 or not isinstance(sec.get("startOffset"), int)):
+        elif sec is not None and (not isinstance(sec.get("duration"), int) or not isinstance(sec.get("startOffset"), int)):
             bad.append(("tracer-section-open:%s:%s" % (key, tag), "tracing %s section has no duration/startOffset: %r" % (key, sec)))
     started = sorted({e[3] for e in log if e[0] == "h" and e[2] == "field+"}, key=repr)
     ex = payload.get("execution")
@@ -981,11 +1001,9 @@ def tracer_oracle(case, log, payload):
     if sorted((tuple(r["path"]) for r in res), key=repr) != started:
         bad.append(("tracer-resolvers:%s" % tag, "tracing resolvers %r differ from the started fields %r" % ([r["path"] for r in res], started)))
     for r in res:
-        if not isinstance(r.get("duration"), int) or r["duration"] < 0 or not isinstance(r.get("startOffset"), int):
+        if not isinstance(r.get("duration"), int) or not isinstance(r.get("startOffset"), int):
             bad.append(("tracer-resolver-open:%s" % tag, "tracing resolver entry without duration: %r" % (r,)))
             break
-    if isinstance(payload.get("duration"), int) and payload["duration"] < 0:
-        bad.append(("tracer-negative-duration", "negative duration"))
     return bad
 
 
@@ -1080,8 +1098,21 @@ def shrink(case, failing, budget=60):
 
 
 # ---------------------------------------------------------------------------------------------
-def real_trace(case):
+def real_trace(case, ctx=None):
+    """run the real code; a hang verdict is CONFIRMED by a second, isolated run with 20x larger progress bounds"""
     log, result, err, payload = run_real(case)
+    if err and err.startswith("hang"):
+        if ctx is not None and ctx.extra.get("_confirmed_hangs", 0) >= 3:
+            ctx.stat("hang-suspicion-not-examined")     # three confirmed hangs are already reported in this run
+            return [ev_str(e) for e in log if not (e[0] == "h" and e[1] == REF)], log, None, "infra:hang suspicion not examined", None
+        log2, result2, err2, payload2 = run_real(case, scale=CONFIRM_SCALE)
+        if not (err2 and err2.startswith("hang")) and ctx is not None:
+            ctx.stat("slow-case-not-a-hang")
+        elif ctx is not None:
+            ctx.extra["_confirmed_hangs"] = ctx.extra.get("_confirmed_hangs", 0) + 1
+        log, result, err, payload = log2, result2, err2, payload2
+    if err and err.startswith("infra") and ctx is not None and "not examined" not in err:
+        ctx.notes.append("case skipped, infrastructure bound exceeded: %s" % err)
     return [ev_str(e) for e in log if not (e[0] == "h" and e[1] == REF)], log, result, err, payload
 
 
@@ -1089,7 +1120,7 @@ def check_cases(ctx, cases):
     """run real code + oracle on every case; batch the model; compare"""
     reals = []
     for case in cases:
-        tr, log, result, err, payload = real_trace(case)
+        tr, log, result, err, payload = real_trace(case, ctx)
         reals.append((tr, err))
         ctx.count()
         ctx.stat("config=" + case["config"])
@@ -1103,6 +1134,8 @@ def check_cases(ctx, cases):
             ctx.stat("has___typename")
         if len(tr) > 2 * len(leaves(case["instr"])):
             ctx.nontrivial(json.dumps({k: case[k] for k in case if k != "sel"}, sort_keys=True, default=str))
+        if err and err.startswith("infra"):
+            continue
         if err:
             ctx.fail("%s:%s:%s" % (err.split(":")[0], err, case["config"]), "request did not produce an outcome: %s" % err,
                      {"case": case}, kind="property" if err.startswith("hang") else "correspondence")
@@ -1296,6 +1329,7 @@ def run(ctx):
 
 def _cleanup(ctx):
     ctx.extra.pop("_shrunk", None)
+    ctx.extra.pop("_confirmed_hangs", None)
 
 
 def replay(ctx, data):
